@@ -66,5 +66,17 @@ PROPS["C13"] = {
     "assumptions": ["one identifier names one definition (Consistent) for the exactness theorem; other graphs are only compared model-vs-code"],
 }
 
+
+PROPS["C16"] = {
+    "level_text": "Machine-checked Lean theorems over the model of formatDuration/parseDuration and the per-format wrappers, for every instant 0 <= t < 100 h at nanosecond resolution: the rendering has exactly the canonical shape (two-digit HH<100, MM,SS<60, exactly 3 resp. 2 fraction digits); each format's own reader maps it back to t truncated to the format's unit (floor, multiple of the unit, monotone), and formatting the value read back gives the identical text. For STL at 25 and 30 fps (t < 24 h): fields h<24, m,s<60, f<fr; the value read back is within 1 ns of the frame instant and read-then-write changes no field. The float path of formatDuration is tied to the integer model by ts.fracsweep (all 10^9 values of t mod 1s in the thorough tier) and ts.sweep (every millisecond of 24 h in the thorough tier).",
+    "level_note": "Trusted: Lean kernel; hand-written integer model of the float expression in formatDuration (validated exhaustively on the implementation, not proved from IEEE-754); strings/strconv re-implementations (lib streams); the tie. The pinned tree violated the STL clause at 30 fps (D16), repaired by a fix: commit. TTML offset/frames syntaxes are treated under C03.",
+    "technique": "Lean 4 proof (explicit digit-string lemmas for Itoa/Atoi/Split/TrimSpace, omega over the field arithmetic) + differential correspondence incl. exhaustive sweeps on the implementation",
+    "props": ["Astisub.Props.C16"],
+    "streams": [{"name": "ts.text", "needs_hooks": True}, {"name": "ts.stl", "needs_hooks": True},
+                {"name": "ts.fracsweep", "needs_hooks": True}, {"name": "ts.sweep", "needs_hooks": True}],
+    "trust": ["model: Duration.format computes the fraction digits in integer arithmetic; Go goes through float64 (math.Floor(float64(n)/1e6/10^k)) - tie: exhaustive comparison on the implementation"],
+    "assumptions": ["0 <= t < 100 h (24 h for STL)"],
+}
+
 NOT_APPLICABLE = {p: "not built yet in this session (work in progress; see DESIGN.md section 11 for the build order)" for p in
-                  ["C01","C02","C03","C04","C05","C06","C07","C08","C15","C16","C17","C18","C19","C20"]}
+                  ["C01","C02","C03","C04","C05","C06","C07","C08","C15","C17","C18","C19","C20"]}
